@@ -62,7 +62,9 @@ class Rule(JupyterMixin):
 
         chars_len = cell_len(characters)
         if not self.title:
-            rule_text = Text(characters * ((width // chars_len) + 1), self.style)
+            rule_text = Text(
+                characters * ((width // chars_len) + 1), self.style, end=self.end
+            )
             rule_text.truncate(width)
             rule_text.plain = set_cell_size(rule_text.plain, width)
             yield rule_text
